@@ -210,7 +210,7 @@ func (t *Translator) instr(st *State, in ssa.Instruction) {
 		md, mv := t.w.mapArrs(m)
 		ks, vs := t.S().SortOf(m.Key()), t.S().SortOf(m.Elem())
 		t.setArr(st, md, "(store "+t.arrTerm(md, st.heap)+" "+r+" ((as const (Array "+ks+" Bool)) false))")
-		t.setArr(st, mv, "(store "+t.arrTerm(mv, st.heap)+" "+r+" ((as const (Array "+ks+" "+vs+")) "+t.S().ZeroOfSort(vs)+"))")
+		t.setArr(st, mv, "(store "+t.arrTerm(mv, st.heap)+" "+r+" ((as const (Array "+ks+" "+vs+")) "+t.S().finalZero(vs)+"))")
 		t.vals[in] = r
 	case *ssa.MapUpdate:
 		m := t.val(st, in.Map)
@@ -263,7 +263,7 @@ func (t *Translator) instr(st *State, in ssa.Instruction) {
 		es, _ := t.S().slices[so]
 		ln := t.val(st, in.Len)
 		t.safety(st, "makeslice", "(>= "+ln+" 0)", in.Pos(), "len")
-		t.vals[in] = slMk(so, "((as const (Array Int "+es+")) "+t.S().ZeroOfSort(es)+")", ln, "false")
+		t.vals[in] = slMk(so, "((as const (Array Int "+es+")) "+t.S().finalZero(es)+")", ln, "false")
 	case *ssa.Slice:
 		t.sliceOp(st, in)
 	case *ssa.MakeClosure:
